@@ -83,6 +83,13 @@ def G7x(head_left=False):
                 unary=[(3, 4, 'u')], roots=[5], uniform=True)
 
 
+def GT():
+    """two non-root categories P, Q derived from the same children by two rules (every derivation through P ties exactly with its twin
+    through Q), and a rule that creates Q alone from another pair: the order in which a batch creates P and Q depends on its history"""
+    return dict(name='GT', ncats=6, T=3, binary=[(0, 1, 3, 1, 'ab1'), (0, 1, 4, 1, 'ab2'), (1, 0, 4, 1, 'ba'), (3, 2, 5, 1, 'pc'), (4, 2, 5, 1, 'qc')],
+                unary=[], roots=[5], uniform=True)
+
+
 def G8():
     """the full-span category is not a root but has a unary rule into the root set: a multi-word sentence must fail"""
     return dict(name='G8', ncats=5, T=2, binary=[(0, 1, 2, 1, 'ab'), (1, 0, 2, 1, 'ba'), (0, 0, 4, 1, 'aa')], unary=[(2, 3, 'u'), (0, 3, 'v')], roots=[3, 4], uniform=True)
